@@ -1,3 +1,4 @@
+import copy
 from typing import Any, cast
 
 from prosemirror.model import Fragment, Node, Schema, Slice
@@ -46,7 +47,7 @@ class AttrStep(Step):
             "stepType": "attr",
             "pos": self.pos,
             "attr": self.attr,
-            "value": self.value,
+            "value": copy.deepcopy(self.value),
         }
 
     @staticmethod
